@@ -37,6 +37,10 @@ class Search17(Search):
             return
         key = cfg_key(cfg)
         has_var = bool(cfg.get("variational") or cfg.get("megno"))
+        # 64-bit counters beyond 2^32 (a field written with 4 bytes would come back truncated and still compare equal)
+        self.poke(a, "collisions_log_n", 5 * 2 ** 32 + 7, ctypes.c_int64)
+        if not cfg.get("megno"):
+            self.poke(a, "megno_n", 3 * 2 ** 32 + 11, ctypes.c_int64)
         R.save(a)                      # the first save initialises the integrator (reb_integrator_init) - not part of the claim
         v0 = R.persisted_view(a, drop_wall=False)
         cp, warns = self.restore(a, path)   # path: copy / pickle / buffer / file
@@ -50,6 +54,17 @@ class Search17(Search):
         dd = R.first_difference(v0, vc)
         if dd:
             c.violation("copy-differs:" + dd.split(" ")[0], "the copy (%s) differs from its source in %s" % (path, dd), {"cfg": cfg, "path": path})
+            return
+        rawd = R.raw_member_differences(a, cp)
+        if rawd:
+            c.violation("copy-raw-differs:" + rawd[0], "persisted member(s) %s of the copy (%s) differ from the source in struct memory although the serialised streams agree, cfg %s" % (rawd[:4], path, key),
+                        {"cfg": cfg, "path": path, "members": rawd})
+            return
+        if R.tree_expected(a) and R.tree_complete(a) and not R.tree_complete(cp):
+            lv = R.tree_leaves(cp)
+            c.violation("tree-not-rebuilt:%s/%s" % (a.gravity, a.collision),
+                        "the copy (%s) of a simulation using gravity=%s collision=%s has %s of %d particles in its tree (source: all): it will never find the collisions / tree forces of its source, cfg %s" % (
+                            path, a.gravity, a.collision, "no tree" if lv is None else len(lv), cp.N, key), {"cfg": cfg, "path": path})
             return
         # equality as the library decides it
         ne = R.diff(a, cp)
@@ -141,13 +156,20 @@ def perturbation_sweep(c, S, info, R, rb):
     res = {"reported": 0, "silent_transient": 0, "silent_walltime": 0, "skipped_counter": 0, "silent_finding": 0}
 
     def task(m):
+        # one bit flipped in EACH byte of the member in turn (low and high bytes: a field written with too few bytes hides
+        # differences in the high ones), plus for 64-bit integers a difference of exactly 2^32
         a = build_sim(rb, cfg); advance(a, 2); R.save(a)
-        cp, _ = R.copy(a)
-        addr = ctypes.addressof(cp) + m["off"]
-        old = ctypes.string_at(addr, m["size"])
-        new = bytes((x ^ 0x01) for x in old[:1]) + old[1:]     # flip the lowest bit: smallest possible difference
-        ctypes.memmove(addr, new, m["size"])
-        return {"diff": R.diff(a, cp), "eq": bool(a == cp)}
+        diffs, eqs = [], []
+        variants = [("byte%d" % b, b, 0x01) for b in range(m["size"])]
+        for tag, b, mask in variants:
+            cp, _ = R.copy(a)
+            addr = ctypes.addressof(cp) + m["off"]
+            old = ctypes.string_at(addr, m["size"])
+            new = old[:b] + bytes([old[b] ^ mask]) + old[b + 1:]
+            ctypes.memmove(addr, new, m["size"])
+            diffs.append(R.diff(a, cp)); eqs.append(bool(a == cp))
+        bad = [i for i, d_ in enumerate(diffs) if d_ != diffs[0]]
+        return {"diff": diffs[0], "eq": eqs[0], "diffs": diffs, "consistent": all((d_ == 0) == e for d_, e in zip(diffs, eqs))}
 
     for m in scal:
         p = m["path"]
@@ -161,9 +183,16 @@ def perturbation_sweep(c, S, info, R, rb):
             continue
         want = 1 if (p in per and p not in wall) else 0
         cls = info["transient"].get(p, {}).get("class")
-        if out["diff"] != (0 if out["eq"] else 1):
+        if not out["consistent"]:
             c.violation("python-eq-disagrees", "Python == disagrees with reb_simulation_diff", {"member": p})
-        if out["diff"] == want:
+        res["byte_perturbations"] = res.get("byte_perturbations", 0) + len(out["diffs"])
+        wrong = [i for i, d_ in enumerate(out["diffs"]) if d_ != want]
+        if wrong and len(wrong) < len(out["diffs"]) and want:
+            c.violation("difference-not-reported:" + p + ":high-bytes",
+                        "simulations differing only in byte(s) %s of the %d-byte persisted member %s compare equal (other bytes are reported)" % (wrong, m["size"], p),
+                        {"member": p, "bytes": wrong})
+            continue
+        if out["diff"] == want and not wrong:
             res["reported" if want else ("silent_walltime" if p in wall else ("silent_finding" if cls == "finding" else "silent_transient"))] += 1
             if cls == "finding" and want == 0:
                 fk = {"ri_trace.peri_mode": "F9a:trace-peri_mode-not-persisted",
@@ -227,13 +256,15 @@ def element_sweep(c, S, info, R, rb):
                     if all(ctypes.string_at(ptr + e * esz + m["off"], m["size"]) == b"\0" * m["size"] for e in range(cnt)):
                         hist["constant_slots"] = hist.get("constant_slots", 0) + 1
                         continue
-                b0 = ctypes.string_at(loc, 1)
-                ctypes.memmove(loc, bytes([b0[0] ^ 0x01]), 1)
-                got = R.diff(a, cp)
-                n += 1
+                gots = []
+                for b_ in range(m["size"]):          # one bit in each byte of the member in turn (low and high bytes)
+                    b0 = ctypes.string_at(loc + b_, 1)
+                    ctypes.memmove(loc + b_, bytes([b0[0] ^ 0x01]), 1)
+                    gots.append(R.diff(a, cp))
+                    ctypes.memmove(loc + b_, b0, 1)  # restore (pointers must be intact when the copy is freed)
+                got = want if all(g == want for g in gots) else 1 - want
+                n += len(gots)
                 c.count(("element", row["name"], m["name"]))
-                # restore pointer before the copy is freed
-                ctypes.memmove(loc, b0, 1)
                 if got == want:
                     hist["reported" if want else "pointer_or_padding_silent"] += 1
                     continue
